@@ -22,7 +22,34 @@ HOOK_COMMITS = ["62e1034"]
 UNDER_CONSTRUCTION = "machinery for this property is still under construction in this session; not claimed until its check is green and validated"
 NOT_APPLICABLE = {("C%02d" % i): UNDER_CONSTRUCTION for i in range(1, 21)}
 
+def c18_static_search(ctx, run, LEAN, WORK):
+    """name the first function/statement that fails the constant-time check (the witness is the code site itself)"""
+    import os
+    f = os.path.join(WORK, "C18", "FirstBad.lean")
+    os.makedirs(os.path.dirname(f), exist_ok=True)
+    open(f, "w").write("import Secp.Gen.CTGen\nopen Secp.CT Secp.Gen.CTGen\n#eval firstBad fns\n#eval documented\n#eval unknownCalls\n")
+    rc, out, err, _ = run(["lake", "build", "Secp.Gen.CTGen"], cwd=LEAN, timeout=1800)
+    if rc != 0:
+        return []
+    rc, out, err, _ = run(["lake", "env", "lean", f], cwd=LEAN, timeout=600)
+    import re
+    m = re.search(r'some \("([^"]+)", (\d+)\)', out)
+    if m:
+        return [{"op": "ct-site %s statement#%s" % (m.group(1), m.group(2)),
+                 "impl": "the regenerated body of %s has an operand-dependent branch/index/shift/division/short-circuit or calls outside the constant-time table at statement %s" % (m.group(1), m.group(2)),
+                 "driver": out.strip()[:300], "static": True}]
+    return []
+
 PROPS = {
+    "C18": {
+        "correspondence": False,
+        "static_search": c18_static_search,
+        "level_text": "Structural for-all, fully regenerated: tools/gotr T5 extracts from /repo every function documented 'in constant time' (64 today, the count is a theorem) and everything they call inside the package, with every timing-relevant position explicit (branch/loop/switch conditions, short-circuit operators, index expressions, slice bounds, shift counts, division operands, call targets). Lean proves once (ct_sound, by induction) that a body passing the syntactic check has a leakage trace independent of all secret leaves for EVERY interpretation of the operators, and `decide +kernel` shows every regenerated function passes and calls only table functions or intrinsics. An early return on zero, a data-dependent loop, a secret index or a call to a NonConst function makes table_ok false.",
+        "level_note": "Source-level claim: what the Go compiler emits and micro-architectural timing are outside any executable model. Variables/fields are all treated as secret, len/cap/constants as public; package functions are assumed deterministic (a call with public arguments is public). Control constructs are only accepted with public conditions (today there are none at all).",
+        "technique": "Lean 4 non-interference theorem for a leakage model + `decide +kernel` on the regenerated function table",
+        "trusted_base": ["Lean 4.33.0 kernel", "tools/gotr T5 extraction (go/ast), regenerated every run", "Go compiler does not introduce data-dependent branches (source-level claim)"],
+        "assumptions": ["timing depends only on control flow, memory addresses, shift counts and division operands (the leakage model)"],
+    },
     "C05": {
         "level_text": "Machine-checked theorems (Lean 4 kernel) about the limb-level kernels of field.go as REGENERATED from /repo on every run (tools/gotr T1 -> Secp.Gen.FieldIR, Go wrap-around semantics evalW): Mul2/SquareVal exact mod P with no intermediate wrap for operands of magnitude <= 8; Normalize returns the unique representative in [0,P) for EVERY uint32 limb vector; NegateVal/Add/Add2/AddInt/MulInt exact within uint32 capacity (magnitudes <= 63); SetBytes/PutBytesUnchecked exact with overflow flag iff >= P; IsZero/IsOne/IsOdd/Equals/IsGtOrEqPrimeMinusOrder equal their arithmetic definitions; alias safety of every kernel. No-wrap is a reflective interval analysis (bnd, proved sound once) decided by `decide +kernel` on the regenerated program; congruences by omega/ring. Also: each regenerated kernel is executed by the Lean driver on raw limb vectors (boundary classes, carry windows) and diffed against the real function through verif hooks.",
         "level_note": "Trusted: Lean kernel; tools/gotr prints what go/ast+go/types say (its output is additionally executed against the real functions on every run); Go integer semantics. Magnitude is formalised with per-limb slack (limb <= m*(2^26+2^20)), which is what Mul2's output actually satisfies; the theorems cover magnitudes up to 63, not the documented 64 (MulInt(64) of a Mul2 output can exceed uint32; see DESIGN.md F3/O5). Inverse/SquareRootVal chains are covered at formula level in C16 (exponents) rather than here.",
